@@ -65,6 +65,8 @@ def eq_val(a, b, exact, tol=1e-10):
 
 
 def run(res, replay=None):
+    # structural tie of the propagation loops (_accumulate, cdf) of phasegen/distributions.py: translate the CURRENT source and re-check proofs/GenLoopsEquiv.v
+    import translate_step; (res.proof is not None) and translate_step.run(res.proof, pid=res.pid, tie='loops')
     rng = random.Random(res.seed)
     res.rule = ('vectorised stream: for random configurations (1-3 demes, 1-3 epochs, three models) every permutation '
                 'of 3 (thorough: 4) distinct times drawn from epoch boundaries/0/interior points plus random lists with '
